@@ -147,34 +147,6 @@ def c12(pid, tier, work, replay):
         "amounts incl. negative and multi-word (unit 2^64, 10^30), executed on both drivers; distinct = (operation, ok, error class)")
 
 
-def c05(pid, tier, work, replay):
-    s = C.seed()
-    nt, nops = (30, 40) if tier == "quick" else (400, 60)
-    jobs = []
-    for drv in ("memory", "badger"):
-        sc = GS.nonce_script(s * 1000 + 7, nt, nops, drv, work)
-        jobs.append(Job("c05-%s" % drv, sc, "VipStoreTrace", "VipStoreTrace.cfg", "nonce"))
-    return trace_family(
-        pid, tier, work, [("VipStoreMC", "VipStoreMC_nonce.cfg")], jobs,
-        ["nonce values are abstracted to 1/1000 s units relative to the run epoch"],
-        "seeded nonce sequences (replays, +-1, around the 15 min boundary, far future) interleaved with sleeps and "
-        "close/reopen of the persistent store, for node and wallet identities; distinct = (operation, accepted)")
-
-
-def c11(pid, tier, work, replay):
-    s = C.seed()
-    nt, nops = (40, 40) if tier == "quick" else (600, 60)
-    jobs = []
-    for drv in ("memory", "badger"):
-        sc = GS.peers_script(s * 1000 + 11, nt, nops, drv, work)
-        jobs.append(Job("c11-%s" % drv, sc, "VipStoreTrace", "VipStoreTrace.cfg", "peers"))
-    return trace_family(
-        pid, tier, work, [("VipStoreMC", "VipStoreMC_peer_q.cfg" if tier == "quick" else "VipStoreMC_peer.cfg")], jobs,
-        ["a node reporting itself as its own peer is a documented don't-care and is not generated"],
-        "seeded keep-alive histories of 2-4 nodes with gaps of 59/60/61/119/120/121 s, peers appearing, disappearing, "
-        "reappearing, duplicate and unknown ids, on both drivers; distinct = (operation, ok, error class)")
-
-
 def pool_jobs(tag, focus, s, nt, nops, work, cfg=None, weights=None, chunks=1, drivers=("memory", "badger")):
     jobs = []
     for drv in drivers:
@@ -191,9 +163,147 @@ def pxx(pid, tier, work, replay):
     return trace_family(pid, tier, work, [], jobs, [], "dev")
 
 
+POOL_ASSUME = [
+    "one request in flight per identity and one host identity per connection (how agents behave)",
+    "cryptography (secp256k1, Keccak) is assumed sound; the model says which request components are covered and where verification sits",
+    "deposits are supplied by a BalanceStore wrapper with the shape of the contract proxy",
+]
+
+
+def sized(tier, q, t):
+    return q if tier == "quick" else t
+
+
+def pool_prop(tag, focus, rule, mc, cfg=None, weights=None, extra_jobs=None, quick=(24, 45), thorough=(480, 70), assume=None):
+    def fn(pid, tier, work, replay):
+        s = C.seed()
+        nt, nops = sized(tier, quick, thorough)
+        chunks = 1 if tier == "quick" else 8
+        jobs = pool_jobs(tag, focus, s, nt, nops, work, cfg=cfg, weights=weights, chunks=chunks)
+        if extra_jobs:
+            jobs += extra_jobs(s, tier, work)
+        return trace_family(pid, tier, work, mc(tier) if callable(mc) else mc, jobs, POOL_ASSUME + (assume or []), rule)
+    return fn
+
+
+def store_ledger_jobs(s, tier, work):
+    nt, nops = sized(tier, (20, 40), (300, 60))
+    return [Job("c01-store-%s" % drv, GS.store_script(s * 1000 + 101, nt, nops, drv, work), "VipStoreTrace", "VipStoreTrace.cfg", "ledger")
+            for drv in ("memory", "badger")]
+
+
+c01 = pool_prop(
+    "c01", "C01",
+    "seeded pool sessions (hosts, clients, shared wallets, reconnects, forged and stale requests, low-balance cut-offs, "
+    "withdrawals, settlement failures) on both drivers; after every operation the ledger total (Stats.TotalCredit and the "
+    "sum of all account and trial balances) must equal the model's; distinct = (operation, outcome class)",
+    lambda tier: [("VipStoreMC", "VipStoreMC_bal.cfg")] + ([("VipPoolMC", "VipPoolMC_bill_q.cfg")] if tier == "quick" else [("VipPoolMC", "VipPoolMC_bill.cfg")]),
+    weights=dict(update=40, sleep=14, forged=5, withdraw=4, credit=3, addnode=5),
+    extra_jobs=store_ledger_jobs)
+
+c02 = pool_prop(
+    "c02", "C02",
+    "seeded keep-alive schedules (gaps 1..300 s, prices 1/7/60/61/1000 per 60 s, units 1, 1e12, 2^64, 1e30, 0..3 peers "
+    "incl. non-hosts and peers sharing the client's wallet, reconnects between updates); every balance and the balance "
+    "in every update reply must equal the model's floor(elapsed*price/interval) per active peer",
+    lambda tier: [("VipStoreMC", "VipStoreMC_bal.cfg")] + ([("VipPoolMC", "VipPoolMC_bill_q.cfg")] if tier == "quick" else [("VipPoolMC", "VipPoolMC_bill.cfg")]),
+    cfg=dict(minbal="off"),
+    weights=dict(update=50, sleep=20, forged=2, withdraw=1, peer=4, close=1, reopen=1, mode=1, stale=1, addnode=6, reconnect=6))
+
+c03 = pool_prop(
+    "c03", "C03",
+    "seeded sessions with a minimum balance of -50/0/40, deposits and credits around it; compared: which connects and "
+    "keep-alives are refused for balance, the reported balance, the disconnect instructions sent to hosts",
+    lambda tier: [("VipStoreMC", "VipStoreMC_bal.cfg")] + ([("VipPoolMC", "VipPoolMC_bill_q.cfg")] if tier == "quick" else [("VipPoolMC", "VipPoolMC_bill.cfg")]),
+    cfg=dict(minbal=None),
+    weights=dict(update=40, sleep=14, deposit=8, credit=8, addnode=8, reconnect=10, client=3, forged=2))
+
+c04 = pool_prop(
+    "c04", "C04",
+    "every signed endpoint x every single-component alteration (method, sibling method, identity, nonce+-1ns/+1s, parameter, "
+    "signature byte, other key, empty/garbage/short/zero signature, identity style swap, legacy payload, v+27, 0x prefix) "
+    "at random points of valid sessions; compared: accepted exactly if unaltered",
+    lambda tier: [("VipStoreMC", "VipStoreMC_nonce.cfg")] + ([("VipPoolMC", "VipPoolMC_bill_q.cfg")] if tier == "quick" else [("VipPoolMC", "VipPoolMC_bill.cfg")]),
+    weights=dict(forged=45, update=20, sleep=6, legacy=6))
+
+c05p = None
+
+c06 = pool_prop(
+    "c06", "C06",
+    "forged / mis-signed / stale requests on every signed endpoint interleaved at random points of valid sessions, each "
+    "followed by the owner's request with the same (smaller-or-equal, fresh) nonce; compared: complete projected state "
+    "before/after the refused request, host registrations, agent calls, and the owner's acceptance",
+    lambda tier: [("VipStoreMC", "VipStoreMC_nonce.cfg")] + ([("VipPoolMC", "VipPoolMC_bill_q.cfg")] if tier == "quick" else [("VipPoolMC", "VipPoolMC_bill.cfg")]),
+    weights=dict(forged=45, stale=8, update=20, sleep=6))
+
+c07 = pool_prop(
+    "c07", "C07",
+    "seeded sessions of credit accrual (billing and direct credit), deposits, repeated withdrawals, settlement failures, "
+    "fees 0/10, minimum off/5/50; compared: outcome, amount paid, credit left, cumulative paid per wallet",
+    lambda tier: [("VipStoreMC", "VipStoreMC_bal.cfg")] + ([("VipPoolMC", "VipPoolMC_bill_q.cfg")] if tier == "quick" else [("VipPoolMC", "VipPoolMC_bill.cfg")]),
+    weights=dict(withdraw=30, credit=14, deposit=10, settlemode=8, addnode=8, update=25, sleep=10, forged=4))
+
+c08 = pool_prop(
+    "c08", "C08",
+    "seeded pool populations (host kinds, fresh/stale, connected or not, already peered or not), requested counts -1..5, "
+    "maxima 0..3, agents that ack / ack slowly / fail / hang; compared: which hosts are instructed, the reply set, "
+    "error vs reply, time the pool waited",
+    lambda tier: [("VipStoreMC", "VipStoreMC_peer_q.cfg")] + ([("VipPoolMC", "VipPoolMC_peer_q.cfg")] if tier == "quick" else [("VipPoolMC", "VipPoolMC_peer.cfg")]),
+    weights=dict(peer=45, client=6, mode=10, update=20, sleep=12, close=5, reopen=5, reconnect=8, forged=2))
+
+c09 = pool_prop(
+    "c09", "C09",
+    "seeded orders of connect, reconnect on a new connection, close-old, close-new and peer requests over 6 connections; "
+    "compared: NumRemotes after every operation and which connection each instruction is sent over",
+    lambda tier: [("VipStoreMC", "VipStoreMC_peer_q.cfg")] + ([("VipPoolMC", "VipPoolMC_peer_q.cfg")] if tier == "quick" else [("VipPoolMC", "VipPoolMC_peer.cfg")]),
+    weights=dict(reconnect=25, close=18, reopen=15, peer=30, update=10, sleep=6, host=4, forged=2))
+
+
+def c05(pid, tier, work, replay):
+    s = C.seed()
+    nt, nops = sized(tier, (30, 40), (400, 60))
+    jobs = []
+    for drv in ("memory", "badger"):
+        jobs.append(Job("c05-%s" % drv, GS.nonce_script(s * 1000 + 7, nt, nops, drv, work), "VipStoreTrace", "VipStoreTrace.cfg", "nonce"))
+    pt, pops = sized(tier, (16, 45), (300, 70))
+    jobs += pool_jobs("c05p", "C05", s, pt, pops, work, weights=dict(stale=30, legacy=10, update=25, sleep=12, forged=4),
+                      chunks=1 if tier == "quick" else 4)
+    return trace_family(
+        pid, tier, work, [("VipStoreMC", "VipStoreMC_nonce.cfg")], jobs,
+        ["nonce values are abstracted to 1/1000 s units relative to the run epoch"] + POOL_ASSUME,
+        "store level: seeded nonce sequences (replays, +-1, around the 15 min boundary, far future) with sleeps and "
+        "close/reopen of the persistent store; pool level: replayed / decreasing / stale nonces on signed requests "
+        "incl. the legacy update payload; distinct = (operation, outcome class)")
+
+
+def c11(pid, tier, work, replay):
+    s = C.seed()
+    nt, nops = sized(tier, (40, 40), (600, 60))
+    jobs = []
+    for drv in ("memory", "badger"):
+        jobs.append(Job("c11-%s" % drv, GS.peers_script(s * 1000 + 11, nt, nops, drv, work), "VipStoreTrace", "VipStoreTrace.cfg", "peers"))
+    pt, pops = sized(tier, (16, 45), (300, 70))
+    jobs += pool_jobs("c11p", "C11", s, pt, pops, work, weights=dict(update=55, sleep=25, reconnect=6, forged=2),
+                      chunks=1 if tier == "quick" else 4)
+    return trace_family(
+        pid, tier, work, [("VipStoreMC", "VipStoreMC_peer_q.cfg" if tier == "quick" else "VipStoreMC_peer.cfg")], jobs,
+        ["a node reporting itself as its own peer is a documented don't-care and is not generated"] + POOL_ASSUME,
+        "store level and through vipnode_update: keep-alive histories with gaps of 59/60/61/119/120/121 s, peers appearing, "
+        "disappearing, reappearing, duplicate and unknown ids, on both drivers; compared: declared-invalid set, tracked set, "
+        "InvalidPeers / ActivePeers of the reply")
+
+
 CHECKS = {
     "PXX": pxx,
+    "C01": c01,
+    "C02": c02,
+    "C03": c03,
+    "C04": c04,
     "C05": c05,
+    "C06": c06,
+    "C07": c07,
+    "C08": c08,
+    "C09": c09,
     "C11": c11,
     "C12": c12,
 }
